@@ -235,6 +235,8 @@ func (u *Unit) specIdent(e *SExpr, ctx *specCtx) (Val, error) {
 			return Val{T: u.hget(ctx.cur, "$now", sInt), Ty: u.eng.timeType()}, nil
 		case "$alloc":
 			return Val{T: u.hget(ctx.cur, "$alloc", sInt), Ty: tIntT}, nil
+		case "$lastjson":
+			return Val{T: u.hget(ctx.cur, "$lastjson", sStr), Ty: tStrT}, nil
 		}
 		if srt, ok := u.eng.contracts.Ghosts[e.Name]; ok {
 			if strings.HasPrefix(srt, "const ") { // ghost constant of a Go type, e.g. "const *sugardb.SugarDB"
@@ -370,6 +372,9 @@ func (u *Unit) specBin(e *SExpr, ctx *specCtx) (Val, error) {
 		} else if a.sort(u) == sReal && b.sort(u) == sInt {
 			b.T = sx("to_real", b.T)
 		}
+		if e.Name == "*" && (a.sort(u) == sReal || b.sort(u) == sReal) && !isNumLit(a.T) && !isNumLit(b.T) {
+			return Val{T: u.fmul(a.T, b.T), Ty: ty, S: s}, nil
+		}
 		return Val{T: sx(e.Name, a.T, b.T), Ty: ty, S: s}, nil
 	case "/":
 		if a.sort(u) == sReal {
@@ -455,7 +460,18 @@ func (u *Unit) specIndex(e *SExpr, ctx *specCtx) (Val, error) {
 				if i.sort(u) != parts[0] && parts[0] == sAny && i.Ty != nil {
 					i = Val{T: u.box(ctx.cur, i), S: sAny}
 				}
-				return Val{T: sel(x.T, i.T), S: parts[1], Ty: u.reg.typeOfSort[parts[1]]}, nil
+				rt := u.reg.typeOfSort[parts[1]]
+				switch parts[1] {
+				case sStr:
+					rt = tStrT
+				case sInt:
+					rt = tIntT
+				case sBool:
+					rt = tBoolT
+				case sReal:
+					rt = tRealT
+				}
+				return Val{T: sel(x.T, i.T), S: parts[1], Ty: rt}, nil
 			}
 		}
 		return Val{}, fmt.Errorf("cannot index %s", e.Args[0])
@@ -646,7 +662,7 @@ func (u *Unit) specCall(e *SExpr, ctx *specCtx) (Val, error) {
 		v := sx("ctx_value", c.T, u.box(ctx.cur, Val{T: u.reg.strLit("Database"), Ty: tStrT}))
 		is, val := u.unbox(v, tIntT)
 		if e.Name == "hasdb" {
-			return Val{T: is, Ty: tBoolT}, nil
+			return Val{T: and(not(eq(c.T, "A_nil")), is), Ty: tBoolT}, nil
 		}
 		return Val{T: val, Ty: tIntT}, nil
 	case "isint", "isstr", "isfloat", "isint64":
@@ -682,6 +698,56 @@ func (u *Unit) specCall(e *SExpr, ctx *specCtx) (Val, error) {
 			return Val{T: is, Ty: tBoolT}, nil
 		}
 		return Val{T: v, Ty: ty}, nil
+	case "implements":
+		x, err := arg(0)
+		if err != nil {
+			return Val{}, err
+		}
+		if len(e.Args) < 2 || e.Args[1].Op != "str" {
+			return Val{}, fmt.Errorf("implements(x, \"pkg.Iface\")")
+		}
+		ty, _, err := u.resolveSpecType(e.Args[1].Name, ctx)
+		if err != nil {
+			return Val{}, err
+		}
+		return Val{T: u.implementsTest(x.T, ty), Ty: tBoolT}, nil
+	case "sha256hex":
+		// the lower-case hex SHA-256 digest of a string, as computed with sha256.New / Write([]byte(s)) / Sum(nil) / hex.EncodeToString
+		x, err := arg(0)
+		if err != nil {
+			return Val{}, err
+		}
+		u.reg.declFun("hash_sum", "Str", sSlice)
+		u.reg.declFun("hex_string", "Slice", sStr)
+		return Val{T: sx("hex_string", sx("hash_sum", u.concat(u.reg.strLit(""), x.T))), Ty: tStrT}, nil
+	case "bstr":
+		// the string spelled by a byte slice (in the current heap)
+		x, err := arg(0)
+		if err != nil {
+			return Val{}, err
+		}
+		hn, hs := u.elemHeapName(types.Typ[types.Uint8]), "(Array Int (Array Int Int))"
+		h := u.hget(ctx.cur, hn, hs)
+		return Val{T: u.bytesStr(sel(h, sx("s_arr", x.T)), sx("s_off", x.T), sx("s_len", x.T)), Ty: tStrT}, nil
+	case "ref":
+		// the object an interface value points to
+		x, err := arg(0)
+		if err != nil {
+			return Val{}, err
+		}
+		if x.sort(u) != sAny {
+			return Val{T: x.T, Ty: tIntT}, nil
+		}
+		return Val{T: sx("a_ref", x.T), Ty: tIntT}, nil
+	case "zeroval":
+		if len(e.Args) != 1 || e.Args[0].Op != "str" {
+			return Val{}, fmt.Errorf("zeroval(\"T\")")
+		}
+		ty, _, err := u.resolveSpecType(e.Args[0].Name, ctx)
+		if err != nil {
+			return Val{}, err
+		}
+		return Val{T: u.zero(ty), Ty: ty}, nil
 	case "boxed":
 		x, err := arg(0)
 		if err != nil {
@@ -804,6 +870,35 @@ func (u *Unit) specCall(e *SExpr, ctx *specCtx) (Val, error) {
 			u.note("finite-sum axioms (lemma L2) for sumover(" + e.Args[2].String() + ")")
 		}
 		return Val{T: sx(sumf, set), Ty: types.Typ[types.Int64]}, nil
+	case "seencount":
+		if ctx.iter == nil || ctx.iter.isStr {
+			return Val{}, fmt.Errorf("seencount() is only available in the invariant of a range-over-map loop")
+		}
+		c, ok := ctx.cur.heap[ctx.iter.cnt]
+		if !ok {
+			c = u.hget(ctx.cur, ctx.iter.cnt, sInt)
+		}
+		return Val{T: c, Ty: tIntT}, nil
+	case "seenin":
+		// seenin(n, k): k was already visited by the range-over-map loop with ordinal n (an enclosing loop)
+		if len(e.Args) != 2 || e.Args[0].Op != "int" || ctx.fr == nil {
+			return Val{}, fmt.Errorf("seenin(loopOrdinal, key)")
+		}
+		var ord int
+		fmt.Sscan(e.Args[0].Name, &ord)
+		it := ctx.fr.iterByOrd[ord]
+		if it == nil || it.isStr {
+			return Val{}, fmt.Errorf("seenin: loop %d is not a range-over-map loop entered before this point", ord)
+		}
+		k, err := arg(1)
+		if err != nil {
+			return Val{}, err
+		}
+		sn, ok := ctx.cur.heap[it.seen]
+		if !ok {
+			sn = u.hget(ctx.cur, it.seen, u.heapSort[it.seen])
+		}
+		return Val{T: sel(sn, k.T), Ty: tBoolT}, nil
 	case "seen", "domain0":
 		if ctx.iter == nil || ctx.iter.isStr {
 			return Val{}, fmt.Errorf("%s() is only available in the invariant of a range-over-map loop", e.Name)
